@@ -15,6 +15,8 @@ import RuxModel.Model.Chain
                                    whose writes fail from the k-th on. No action of these chains looks at the
                                    result of a write (`http.Error`, used by AbortWithStatus(c, msg), ignores it),
                                    so a broken connection changes nothing the property talks about.
+    serveh <variant>            -> the same answer as `serve`: the harness enters through Router.HandleContext with a
+                                   context it prepared itself (Init); both entry points run the same chain
     lim <g1> <g2> <pre> <u> <v> -> accept <n> | reject <step>
                                    NewRoute.Use(pre) ; AddRoute inside groups with g1 + g2 middleware ;
                                    route.Use(u)
@@ -223,6 +225,7 @@ def chainStep (s : ChainSt) : List String → ChainSt × String
   | ["r", a] => match parseActs a with | some h => ({ s with r := s.r ++ [h], wrap := s.wrap || hasWrap a }, "ok") | none => (s, "bad-op")
   | ["m", a] => match parseActs a with | some h => ({ s with m := some h, wrap := s.wrap || hasWrap a }, "ok") | none => (s, "bad-op")
   | ["serve", v] => match v.toNat? with | some _ => (s, chainServe s) | none => (s, "bad-op")
+  | ["serveh", v] => match v.toNat? with | some _ => (s, chainServe s) | none => (s, "bad-op")
   | ["servef", v, k] =>
     match v.toNat?, k.toNat? with
     | some _, some _ => if k.length ≤ 6 then (s, chainServe s) else (s, "bad-op")
